@@ -196,3 +196,110 @@ Proof.
     + exfalso. clear - EB V15. lia.
     + exfalso. clear - EB V15. lia.
 Qed.
+
+(* fq_sub / fr_sub, as translated: 8 subtract-with-borrow, the mask 0 / 2^32-1 selected by the final borrow, 8 add-with-carry of the masked
+   modulus limbs written in the source: for all limb values in range with both operands below the modulus the result limbs are in range and
+   denote (a - b) mod m. *)
+Lemma fq_sub_spec a b : limbs_ok 8 a -> limbs_ok 8 b -> ev a < q -> ev b < q ->
+  limbs_ok 8 (fq_sub a b) /\ ev (fq_sub a b) = (ev a - ev b) mod q.
+Proof.
+  intros Ha Hb. destruct (limbs_ok_8 a Ha) as (a0&a1&a2&a3&a4&a5&a6&a7&->&?&?&?&?&?&?&?&?).
+  destruct (limbs_ok_8 b Hb) as (b0&b1&b2&b3&b4&b5&b6&b7&->&?&?&?&?&?&?&?&?). clear Ha Hb.
+  intros HA HB. cbv beta iota delta [ev fold_right] in HA, HB.
+  match goal with |- limbs_ok 8 ?oo /\ ev ?oo = ?rr => pose (Q := fun o => limbs_ok 8 o /\ ev o = rr); change (Q oo) end.
+  cbv beta iota delta [fq_sub nth].
+  do 8 step2 fq_sl. eval_closed. step1 fq_cl.
+  repeat match goal with H : _ /\ _ |- _ => destruct H end.
+  assert (S : v + 2^32*v0 + 2^64*v1 + 2^96*v2 + 2^128*v3 + 2^160*v4 + 2^192*v5 + 2^224*v6 - 2^256*k6 =
+    (a0 + 2^32*(a1 + 2^32*(a2 + 2^32*(a3 + 2^32*(a4 + 2^32*(a5 + 2^32*(a6 + 2^32*(a7 + 2^32*0)))))))) -
+    (b0 + 2^32*(b1 + 2^32*(b2 + 2^32*(b3 + 2^32*(b4 + 2^32*(b5 + 2^32*(b6 + 2^32*(b7 + 2^32*0))))))))) by (clear HA HB; lia).
+  assert (K6 : 0 <= k6 <= 1) by (split; assumption).
+  split_bit k6; match goal with H : r = _ |- _ => cbn [Z.eqb] in H end; subst r; eval_closed.
+  all: do 8 step2 fq_al.
+  all: subst Q; cbv beta iota delta [ev fold_right limbs_ok length].
+  all: repeat match goal with H : _ /\ _ |- _ => destruct H end.
+  - assert (T : v7 + 2^32*v8 + 2^64*v9 + 2^96*v10 + 2^128*v11 + 2^160*v12 + 2^192*v13 + 2^224*v14 + 2^256*k13 = v + 2^32*v0 + 2^64*v1 + 2^96*v2 + 2^128*v3 + 2^160*v4 + 2^192*v5 + 2^224*v6 + 0) by (clear HA HB S; unfold q; lia).
+    assert (RL : 0 <= v + 2^32*v0 + 2^64*v1 + 2^96*v2 + 2^128*v3 + 2^160*v4 + 2^192*v5 + 2^224*v6 < 2^256) by (clear HA HB S T; lia).
+    assert (RT : 0 <= v7 + 2^32*v8 + 2^64*v9 + 2^96*v10 + 2^128*v11 + 2^160*v12 + 2^192*v13 + 2^224*v14 < 2^256) by (clear HA HB S T RL; lia).
+    assert (RA : 0 <= a0 + 2^32*(a1 + 2^32*(a2 + 2^32*(a3 + 2^32*(a4 + 2^32*(a5 + 2^32*(a6 + 2^32*(a7 + 2^32*0)))))))) by (clear HA HB S T RL RT; lia).
+    assert (RB : 0 <= b0 + 2^32*(b1 + 2^32*(b2 + 2^32*(b3 + 2^32*(b4 + 2^32*(b5 + 2^32*(b6 + 2^32*(b7 + 2^32*0)))))))) by (clear HA HB S T RL RT RA; lia).
+    split. { split. reflexivity. repeat constructor; lia. }
+    replace (v7 + 2^32*(v8 + 2^32*(v9 + 2^32*(v10 + 2^32*(v11 + 2^32*(v12 + 2^32*(v13 + 2^32*(v14 + 2^32*0))))))))
+      with (v7 + 2^32*v8 + 2^64*v9 + 2^96*v10 + 2^128*v11 + 2^160*v12 + 2^192*v13 + 2^224*v14) by ring.
+    set (A := a0 + 2^32*(a1 + 2^32*(a2 + 2^32*(a3 + 2^32*(a4 + 2^32*(a5 + 2^32*(a6 + 2^32*(a7 + 2^32*0)))))))) in *. set (B := b0 + 2^32*(b1 + 2^32*(b2 + 2^32*(b3 + 2^32*(b4 + 2^32*(b5 + 2^32*(b6 + 2^32*(b7 + 2^32*0)))))))) in *. set (L := v + 2^32*v0 + 2^64*v1 + 2^96*v2 + 2^128*v3 + 2^160*v4 + 2^192*v5 + 2^224*v6) in *. set (TL := v7 + 2^32*v8 + 2^64*v9 + 2^96*v10 + 2^128*v11 + 2^160*v12 + 2^192*v13 + 2^224*v14) in *.
+    clearbody A B L TL.
+    assert (Hq : 0 < q < 2^256) by (unfold q; lia).
+    assert (K14 : 0 <= k13 <= 1) by (split; assumption).
+    clear - S T RL RT RA RB HA HB Hq K14. unfold q in *.
+    split_bit k13.
+    + apply mod_eq_0. { clear - S T HA RB RT. lia. } clear - S T. lia.
+    + exfalso. clear - S T RL RT. lia.
+  - assert (T : v7 + 2^32*v8 + 2^64*v9 + 2^96*v10 + 2^128*v11 + 2^160*v12 + 2^192*v13 + 2^224*v14 + 2^256*k13 = v + 2^32*v0 + 2^64*v1 + 2^96*v2 + 2^128*v3 + 2^160*v4 + 2^192*v5 + 2^224*v6 + q) by (clear HA HB S; unfold q; lia).
+    assert (RL : 0 <= v + 2^32*v0 + 2^64*v1 + 2^96*v2 + 2^128*v3 + 2^160*v4 + 2^192*v5 + 2^224*v6 < 2^256) by (clear HA HB S T; lia).
+    assert (RT : 0 <= v7 + 2^32*v8 + 2^64*v9 + 2^96*v10 + 2^128*v11 + 2^160*v12 + 2^192*v13 + 2^224*v14 < 2^256) by (clear HA HB S T RL; lia).
+    assert (RA : 0 <= a0 + 2^32*(a1 + 2^32*(a2 + 2^32*(a3 + 2^32*(a4 + 2^32*(a5 + 2^32*(a6 + 2^32*(a7 + 2^32*0)))))))) by (clear HA HB S T RL RT; lia).
+    assert (RB : 0 <= b0 + 2^32*(b1 + 2^32*(b2 + 2^32*(b3 + 2^32*(b4 + 2^32*(b5 + 2^32*(b6 + 2^32*(b7 + 2^32*0)))))))) by (clear HA HB S T RL RT RA; lia).
+    split. { split. reflexivity. repeat constructor; lia. }
+    replace (v7 + 2^32*(v8 + 2^32*(v9 + 2^32*(v10 + 2^32*(v11 + 2^32*(v12 + 2^32*(v13 + 2^32*(v14 + 2^32*0))))))))
+      with (v7 + 2^32*v8 + 2^64*v9 + 2^96*v10 + 2^128*v11 + 2^160*v12 + 2^192*v13 + 2^224*v14) by ring.
+    set (A := a0 + 2^32*(a1 + 2^32*(a2 + 2^32*(a3 + 2^32*(a4 + 2^32*(a5 + 2^32*(a6 + 2^32*(a7 + 2^32*0)))))))) in *. set (B := b0 + 2^32*(b1 + 2^32*(b2 + 2^32*(b3 + 2^32*(b4 + 2^32*(b5 + 2^32*(b6 + 2^32*(b7 + 2^32*0)))))))) in *. set (L := v + 2^32*v0 + 2^64*v1 + 2^96*v2 + 2^128*v3 + 2^160*v4 + 2^192*v5 + 2^224*v6) in *. set (TL := v7 + 2^32*v8 + 2^64*v9 + 2^96*v10 + 2^128*v11 + 2^160*v12 + 2^192*v13 + 2^224*v14) in *.
+    clearbody A B L TL.
+    assert (Hq : 0 < q < 2^256) by (unfold q; lia).
+    assert (K14 : 0 <= k13 <= 1) by (split; assumption).
+    clear - S T RL RT RA RB HA HB Hq K14. unfold q in *.
+    split_bit k13.
+    + exfalso. clear - S T RL RT RA HB Hq. lia.
+    + apply mod_eq_m1. { clear - S T RL RT RA HB. lia. } clear - S T. lia.
+Qed.
+
+Lemma fr_sub_spec a b : limbs_ok 8 a -> limbs_ok 8 b -> ev a < Certs.r -> ev b < Certs.r ->
+  limbs_ok 8 (fr_sub a b) /\ ev (fr_sub a b) = (ev a - ev b) mod Certs.r.
+Proof.
+  intros Ha Hb. destruct (limbs_ok_8 a Ha) as (a0&a1&a2&a3&a4&a5&a6&a7&->&?&?&?&?&?&?&?&?).
+  destruct (limbs_ok_8 b Hb) as (b0&b1&b2&b3&b4&b5&b6&b7&->&?&?&?&?&?&?&?&?). clear Ha Hb.
+  intros HA HB. cbv beta iota delta [ev fold_right] in HA, HB.
+  match goal with |- limbs_ok 8 ?oo /\ ev ?oo = ?rr => pose (Q := fun o => limbs_ok 8 o /\ ev o = rr); change (Q oo) end.
+  cbv beta iota delta [fr_sub nth].
+  do 8 step2 fr_sl. eval_closed. step1 fr_cl.
+  repeat match goal with H : _ /\ _ |- _ => destruct H end.
+  assert (S : v + 2^32*v0 + 2^64*v1 + 2^96*v2 + 2^128*v3 + 2^160*v4 + 2^192*v5 + 2^224*v6 - 2^256*k6 =
+    (a0 + 2^32*(a1 + 2^32*(a2 + 2^32*(a3 + 2^32*(a4 + 2^32*(a5 + 2^32*(a6 + 2^32*(a7 + 2^32*0)))))))) -
+    (b0 + 2^32*(b1 + 2^32*(b2 + 2^32*(b3 + 2^32*(b4 + 2^32*(b5 + 2^32*(b6 + 2^32*(b7 + 2^32*0))))))))) by (clear HA HB; lia).
+  assert (K6 : 0 <= k6 <= 1) by (split; assumption).
+  split_bit k6; match goal with H : r = _ |- _ => cbn [Z.eqb] in H end; subst r; eval_closed.
+  all: do 8 step2 fr_al.
+  all: subst Q; cbv beta iota delta [ev fold_right limbs_ok length].
+  all: repeat match goal with H : _ /\ _ |- _ => destruct H end.
+  - assert (T : v7 + 2^32*v8 + 2^64*v9 + 2^96*v10 + 2^128*v11 + 2^160*v12 + 2^192*v13 + 2^224*v14 + 2^256*k13 = v + 2^32*v0 + 2^64*v1 + 2^96*v2 + 2^128*v3 + 2^160*v4 + 2^192*v5 + 2^224*v6 + 0) by (clear HA HB S; unfold Certs.r; lia).
+    assert (RL : 0 <= v + 2^32*v0 + 2^64*v1 + 2^96*v2 + 2^128*v3 + 2^160*v4 + 2^192*v5 + 2^224*v6 < 2^256) by (clear HA HB S T; lia).
+    assert (RT : 0 <= v7 + 2^32*v8 + 2^64*v9 + 2^96*v10 + 2^128*v11 + 2^160*v12 + 2^192*v13 + 2^224*v14 < 2^256) by (clear HA HB S T RL; lia).
+    assert (RA : 0 <= a0 + 2^32*(a1 + 2^32*(a2 + 2^32*(a3 + 2^32*(a4 + 2^32*(a5 + 2^32*(a6 + 2^32*(a7 + 2^32*0)))))))) by (clear HA HB S T RL RT; lia).
+    assert (RB : 0 <= b0 + 2^32*(b1 + 2^32*(b2 + 2^32*(b3 + 2^32*(b4 + 2^32*(b5 + 2^32*(b6 + 2^32*(b7 + 2^32*0)))))))) by (clear HA HB S T RL RT RA; lia).
+    split. { split. reflexivity. repeat constructor; lia. }
+    replace (v7 + 2^32*(v8 + 2^32*(v9 + 2^32*(v10 + 2^32*(v11 + 2^32*(v12 + 2^32*(v13 + 2^32*(v14 + 2^32*0))))))))
+      with (v7 + 2^32*v8 + 2^64*v9 + 2^96*v10 + 2^128*v11 + 2^160*v12 + 2^192*v13 + 2^224*v14) by ring.
+    set (A := a0 + 2^32*(a1 + 2^32*(a2 + 2^32*(a3 + 2^32*(a4 + 2^32*(a5 + 2^32*(a6 + 2^32*(a7 + 2^32*0)))))))) in *. set (B := b0 + 2^32*(b1 + 2^32*(b2 + 2^32*(b3 + 2^32*(b4 + 2^32*(b5 + 2^32*(b6 + 2^32*(b7 + 2^32*0)))))))) in *. set (L := v + 2^32*v0 + 2^64*v1 + 2^96*v2 + 2^128*v3 + 2^160*v4 + 2^192*v5 + 2^224*v6) in *. set (TL := v7 + 2^32*v8 + 2^64*v9 + 2^96*v10 + 2^128*v11 + 2^160*v12 + 2^192*v13 + 2^224*v14) in *.
+    clearbody A B L TL.
+    assert (Hq : 0 < Certs.r < 2^256) by (unfold Certs.r; lia).
+    assert (K14 : 0 <= k13 <= 1) by (split; assumption).
+    clear - S T RL RT RA RB HA HB Hq K14. unfold Certs.r in *.
+    split_bit k13.
+    + apply mod_eq_0. { clear - S T HA RB RT. lia. } clear - S T. lia.
+    + exfalso. clear - S T RL RT. lia.
+  - assert (T : v7 + 2^32*v8 + 2^64*v9 + 2^96*v10 + 2^128*v11 + 2^160*v12 + 2^192*v13 + 2^224*v14 + 2^256*k13 = v + 2^32*v0 + 2^64*v1 + 2^96*v2 + 2^128*v3 + 2^160*v4 + 2^192*v5 + 2^224*v6 + Certs.r) by (clear HA HB S; unfold Certs.r; lia).
+    assert (RL : 0 <= v + 2^32*v0 + 2^64*v1 + 2^96*v2 + 2^128*v3 + 2^160*v4 + 2^192*v5 + 2^224*v6 < 2^256) by (clear HA HB S T; lia).
+    assert (RT : 0 <= v7 + 2^32*v8 + 2^64*v9 + 2^96*v10 + 2^128*v11 + 2^160*v12 + 2^192*v13 + 2^224*v14 < 2^256) by (clear HA HB S T RL; lia).
+    assert (RA : 0 <= a0 + 2^32*(a1 + 2^32*(a2 + 2^32*(a3 + 2^32*(a4 + 2^32*(a5 + 2^32*(a6 + 2^32*(a7 + 2^32*0)))))))) by (clear HA HB S T RL RT; lia).
+    assert (RB : 0 <= b0 + 2^32*(b1 + 2^32*(b2 + 2^32*(b3 + 2^32*(b4 + 2^32*(b5 + 2^32*(b6 + 2^32*(b7 + 2^32*0)))))))) by (clear HA HB S T RL RT RA; lia).
+    split. { split. reflexivity. repeat constructor; lia. }
+    replace (v7 + 2^32*(v8 + 2^32*(v9 + 2^32*(v10 + 2^32*(v11 + 2^32*(v12 + 2^32*(v13 + 2^32*(v14 + 2^32*0))))))))
+      with (v7 + 2^32*v8 + 2^64*v9 + 2^96*v10 + 2^128*v11 + 2^160*v12 + 2^192*v13 + 2^224*v14) by ring.
+    set (A := a0 + 2^32*(a1 + 2^32*(a2 + 2^32*(a3 + 2^32*(a4 + 2^32*(a5 + 2^32*(a6 + 2^32*(a7 + 2^32*0)))))))) in *. set (B := b0 + 2^32*(b1 + 2^32*(b2 + 2^32*(b3 + 2^32*(b4 + 2^32*(b5 + 2^32*(b6 + 2^32*(b7 + 2^32*0)))))))) in *. set (L := v + 2^32*v0 + 2^64*v1 + 2^96*v2 + 2^128*v3 + 2^160*v4 + 2^192*v5 + 2^224*v6) in *. set (TL := v7 + 2^32*v8 + 2^64*v9 + 2^96*v10 + 2^128*v11 + 2^160*v12 + 2^192*v13 + 2^224*v14) in *.
+    clearbody A B L TL.
+    assert (Hq : 0 < Certs.r < 2^256) by (unfold Certs.r; lia).
+    assert (K14 : 0 <= k13 <= 1) by (split; assumption).
+    clear - S T RL RT RA RB HA HB Hq K14. unfold Certs.r in *.
+    split_bit k13.
+    + exfalso. clear - S T RL RT RA HB Hq. lia.
+    + apply mod_eq_m1. { clear - S T RL RT RA HB. lia. } clear - S T. lia.
+Qed.
